@@ -48,3 +48,7 @@ def weighted_sum(x, weights=None, scale=None, table=None):
 
 def g2p_shift(x, shift=None):
     return np.asarray(x, dtype=np.float64) + shift[None, : np.asarray(x).shape[1]]
+
+
+def tree_size(trees):
+    return np.array([-abs(len(t) - 7.0) for t in trees], dtype=np.float64)
